@@ -1390,19 +1390,6 @@ fn check_extract(ctx: &Ctx, c: &ExtractCase) -> CaseResult {
     }
     let list: Vec<Pczt> = order.iter().map(|i| copies[*i].clone()).collect();
     let mut p = combine(list)?.map_err(|e| Fail::new("combine-rejected-compatible", format!("combining the provers', signer's and redactor's copies (order {order:?}) failed: {e:?} [{head2}]")))?;
-    if std::env::var("C13_DEBUG").is_ok() {
-        let show = |q: &Pczt| -> String {
-            format!(
-                "o={:?} i={:?}",
-                q.orchard().actions().iter().map(|a| a.spend().spend_auth_sig().is_some()).collect::<Vec<_>>(),
-                q.ironwood().actions().iter().map(|a| a.spend().spend_auth_sig().is_some()).collect::<Vec<_>>()
-            )
-        };
-        for (i, cp) in copies.iter().enumerate() {
-            eprintln!("copy {i}: {}", show(cp));
-        }
-        eprintln!("combined: {} real o={:?} i={:?}", show(&p), b.o_spend_idx, b.i_spend_idx);
-    }
     if !finalized {
         p = SpendFinalizer::new(p).finalize_spends().map_err(|e| Fail::new("extract-path-rejected", format!("SpendFinalizer on the combined PCZT: {e:?} [{head2}]")))?;
     }
